@@ -82,6 +82,9 @@ def cases(draw):
             s['env'] = {'VFENV_A': draw(st.sampled_from(
                 ['v', 'a b', '$x', "q'q", ''])), 'VFENV_B': 'fixed'}
     decor.setdefault('pch_headers', [])
+    if not model['default'] and not model['install']:
+        decor['yacc'] = draw(st.sampled_from([None, 'one-first',
+                                              'pair-first']))
     model['decor'] = decor
     conf = []
     mode = draw(st.sampled_from(['both', 'shared', 'static', 'default']))
@@ -142,6 +145,10 @@ def output_of(tool, argv):
         return posixpath.normpath(argv[-1])
     if tool in ('rec', 'rec2') and len(argv) > 1:
         return argv[1]
+    if tool == 'yacc':
+        # (identified by its input: the output arguments are what may differ)
+        return 'yacc:' + ','.join(posixpath.basename(a) for a in argv
+                                  if a.endswith('.y'))
     return None
 
 
